@@ -144,7 +144,10 @@ def run_session(pcfg, save_config, save_filename, load=False, limit=None, quit_a
 
 def load_save(save_filename):
     import pcfg_guesser
-    info = {}
+    # the dictionary pcfg_guesser.main() hands to load_save always holds every option with its default
+    info = {'name': 'PCFG Guesser', 'version': '4.7', 'author': 'x', 'contact': 'x', 'rule_name': 'Default', 'session_name': 'default_run',
+            'load_session': True, 'limit': None, 'cracking_mode': 'true_prob_order',
+            'supported_modes': ['true_prob_order', 'random_walk', 'honeywords'], 'skip_brute': False, 'skip_case': False, 'debug': False}
     with contextlib.redirect_stderr(io.StringIO()):
         cfg = pcfg_guesser.load_save(save_filename, info)
     return cfg, info
